@@ -512,6 +512,13 @@ def ctor_case(ctx, rnd, i, made=None):
 CTOR_FILE = modgen.DS_HEADER + '''
 from dataclasses import dataclass
 from typing import NamedTuple
+# history: the names of the record classes were first given to functions registered for use in queries (a notebook cell rewritten):
+# when the queries are built python finds the CLASSES under these names
+from func_adl import func_adl_callable
+@func_adl_callable()
+def DC(a: float, b: float = 0.0) -> float: ...
+@func_adl_callable()
+def NT(a: float = -1.0, b: float = 0.5) -> float: ...
 @dataclass
 class DC:
     a: float
@@ -582,6 +589,10 @@ def ctor_through_operators(ctx, rnd):
         except Exception as e:
             ctx.violation(f"ctor-operator-exc:{type(e).__name__}", f"k{i}: {type(e).__name__}: {str(e)[:200]}", {"ctor_file": i})
     modgen.unload(m)
+    from func_adl import type_based_replacement as _tbr
+
+    for name in ("DC", "NT"):
+        _tbr._global_functions.pop(name, None)
 
 
 def shard_main(ctx):
